@@ -83,7 +83,7 @@ def feasible_paths(ctx, rep=None):
     serialised (rule CHS) - they are returned separately."""
     A = ctx.A
     b = A.send_wrapper
-    pe = ctx.paths(b)
+    pe = ctx.paths(b, inline=True)
     ch0 = getattr(ctx, "_ch0", None)
     if ch0 is None:
         from mirq.report import Report
@@ -249,19 +249,12 @@ def ch3_drop_accounting(ctx, rep, arms=("BlockOnFull", "DropOldest", "DropLatest
                   "path [%s]: %d discarded action(s), %d action_dropped call(s) on them" % (p.describe(), len(want), len(drops)),
                   "path [%s]: %d action(s) discarded (%s) but %d action_dropped call(s) (%s)" % (p.describe(), len(want), [w[0] for w in want], len(drops), [term_str(d.args[1]) if len(d.args) > 1 else "?" for d in drops]))
     rep.floor(R, "feasible paths judged", n, 2 * len(arms))
-    # the dispatch queue is built with Some(metrics)
-    from rules.queue import _dispatch_channel_site
+    # the dispatch queue is built with the store's metrics object
+    from rules.queue import _dispatch_channel_site, _metrics_given_to_queue
     cb, hits, t = _dispatch_channel_site(ctx)
     if len(hits) == 1:
-        s = hits[0]
-        bp = ctx.prog.bp(cb)
-        mt = None
-        for ai in range(len(s.term["args"])):
-            at = bp.arg_term(s.bb, ai)
-            if at[0] == "agg" and at[1].endswith("Option::Some"):
-                mt = at
-        good = mt is not None and any(st[0] == "call" or st[0] == "wrap" for st in subterms(mt))
-        rep.check(mt is not None, R, "dispatch-queue-has-metrics", s.where, "dispatch queue is created with Some(metrics) (%s)" % (term_str(mt) if mt else ""), "dispatch queue is created without a metrics object: drops are not counted")
+        okm, mt, args = _metrics_given_to_queue(ctx, hits[0])
+        rep.check(okm, R, "dispatch-queue-has-metrics", hits[0].where, "dispatch queue is created with the store's metrics object (%s)" % term_str(mt), "dispatch queue is created without the store's metrics object (%s): drops are not counted" % [term_str(a) for a in args])
 
 
 def ch4_retry_identity(ctx, rep):
@@ -372,11 +365,11 @@ def dr1_result_mapping(ctx, rep):
     A = ctx.A
     b = A.method("StoreImpl", "dispatch", "Dispatcher")
     rep.note_fn(b.path)
-    pe = ctx.paths(b)
+    pe = ctx.paths(b, inline=True)
     rep.stats["paths"] += len(pe.paths)
     n = 0
     for p in pe.paths:
-        enq = [e for e in p.calls() if e.site is not None and A.is_send_wrapper_call(e.site)]
+        enq = [e for e in p.calls() if e.site is not None and not e.inlined and A.is_send_wrapper_call(e.site)]
         if not enq:
             continue
         o = _outcome(p, enq[-1])
